@@ -113,7 +113,7 @@ def plan(tier, seed):
         c.update(family='main', cseed=rnd.randrange(1 << 30))
         cases.append(c)
     kinds = ['misspelt_edge_paths', 'misspelt_output_paths', 'misspelt_input_paths', 'misspelt_update_paths', 'removed_variable',
-             'reserved_names', 'two_outputs', 'cyclic_node', 'missing_operator_value']
+             'reserved_names', 'two_outputs', 'cyclic_node', 'missing_operator_value', 'population_param_missing_variable']
     opened = open_risks(PID)
     n = 24 if tier == 'quick' else 500
     for k in kinds:
@@ -430,6 +430,24 @@ def malformed_case(case, ctx, rnd, mech, res):
         c = CircuitTemplate(name='c', nodes={'n': NodeTemplate(name='nn', operators=ops)})
         mech[kind] = 1
         return expect_raise(lambda: c.get_run_func('f', step_size=dt, vectorize=rnd.random() < 0.5, verbose=False), "cyclic operator graph inside a node")
+    if kind == 'population_param_missing_variable':
+        # a per-unit parameter of a PopulationTemplate addressed to a variable / operator that its node does not have
+        from pyrates import OperatorTemplate, NodeTemplate, CircuitTemplate
+        from pyrates.frontend.template import PopulationTemplate
+        oname = rnd.choice(sorted(spec['ops']))
+        ospec = spec['ops'][oname]
+        cs_ = [v for v, d in ospec['vars'].items() if d[0] == 'const'] or list(ospec['vars'])
+        v0 = rnd.choice(cs_)
+        key = f'{oname}/{v0}_zz' if rnd.random() < 0.5 else f'{oname}_zz/{v0}'
+        res['sample']['mutation'] = key
+        mech[kind] = 1
+
+        def f():
+            node = NodeTemplate(name='pop_node', operators=[OperatorTemplate(**build.op_kwargs(oname, ospec))])
+            n_ = rnd.choice([2, 3, 5])
+            c = CircuitTemplate(name='popc', populations={'p': PopulationTemplate('p', node, n_, params={key: [0.5] * n_})})
+            return c.get_run_func('f', step_size=dt, verbose=False)
+        return expect_warn_or_raise(f, f"population parameter addressed to a non-existent variable ({key})")
     if kind == 'missing_operator_value':
         cs = [k for k in ref.param_keys if ref.kind[k] == 'const']
         k = rnd.choice(cs)
